@@ -129,8 +129,8 @@ def typeKindName : MVal → Option String
   | .range .. => "range" | .list _ => "list" | .none | .some _ => "Option"
   | .anyobj .. => "any-object" | .obj .. => "object" | .fn => "function" | .other _ => Option.none
 
-/-- Call of a builtin member. `vm`: which runtime (they differ in the interrupt `unwrap` raises,
-open finding X13). `unmodelled`: the member is outside the model (only the oracle judges it). -/
+/-- Call of a builtin member. `vm`: which runtime (kept in the signature; since the repair of X13 both raise the same
+catchable exception for `unwrap` of `none`). `unmodelled`: the member is outside the model (only the oracle judges it). -/
 def callMember (vm : Bool) (recv : MVal) (name : String) (args : List MVal) : Res :=
   match recv, name, args with
   | .list xs, "len", [] => .ok (.int (goLen xs)) recv
@@ -155,8 +155,7 @@ def callMember (vm : Bool) (recv : MVal) (name : String) (args : List MVal) : Re
   | .none, "is_none", [] => .ok (.bool true) recv
   | .some _, "is_none", [] => .ok (.bool false) recv
   | .none, "unwrap", [] =>
-    if vm then .throw "Called 'unwrap' on a 'null' option value"
-    else .fatal "ValueError" "Called 'unwrap' on a 'null' option value"
+    .throw "Called 'unwrap' on a 'null' option value"
   | .some v, "unwrap", [] => .ok v recv
   | .none, "unwrap_or", [d] => .ok d recv
   | .some v, "unwrap_or", [_] => .ok v recv
